@@ -133,6 +133,10 @@ Cmps(q) ==
     {PCmp(<<"<", "<">>, <<PLit(I1), V(q \o "2"), PLit(IntV(9))>>),
      PCmp(<<"<", "<">>, <<PLit(I1), PWild, PLit(IntV(9))>>),
      PCmp(<<"<=", "<">>, <<PLit(IntV(0)), V(q \o "2"), PLit(IntV(3))>>),
+     \* mixed chains whose bounds are pool values: every link is checked with its OWN operator
+     PCmp(<<"<=", "<">>, <<PLit(I1), V(q \o "2"), PLit(IntV(5))>>),
+     PCmp(<<"<", "<=">>, <<PLit(I1), V(q \o "2"), PLit(IntV(5))>>),
+     PCmp(<<">=", ">">>, <<PLit(IntV(5)), V(q \o "2"), PLit(I1)>>),
      PCmp(<<"<">>, <<V(q \o "1"), PLit(IntV(5))>>),
      PCmp(<<">=">>, <<V(q \o "1"), PLit(IntV(5))>>),
      PCmp(<<"<">>, <<V(q \o "1"), V(q \o "2")>>),
